@@ -101,12 +101,12 @@ ILL_FORMED = [  # (sequence, structure): mismatched lengths, no strands, empty s
 
 def complex_inputs(rng, quick):
     """(registered keys, ID, sequence, structure, name, prefix)"""
-    L = 4 if quick else 6
+    L = 4 if quick else 5
     structs = list(gen.wellformed_structures(L, 4))
     if quick:
         structs = [s for s in structs if len(s) <= 4 or rng.random() < 0.5]
-    for _ in range(30 if quick else 400):
-        structs.append(gen.random_structure(rng, rng.randint(4, 10 if quick else 30), nstrands=rng.randint(2, 6)))
+    for _ in range(30 if quick else 150):
+        structs.append(gen.random_structure(rng, rng.randint(4, 10 if quick else 20), nstrands=rng.randint(2, 6)))
     cases = []
     def variants(seq, sst, rots):
         others = [(('zz',), ('.',)), (('a', '+', 'a'), ('.', '+', '.'))]
